@@ -20,13 +20,21 @@ _DEFAULTS = StreamItemQueue.__init__.__defaults__
 # Probe seam (this process only): which awaitables did the executor start to await through
 # with_abort_signal()?  An awaitable that got that far cannot have been abandoned by a task
 # that was cancelled before its first step.
-REACHED_AWAIT = set()
+REACHED_AWAIT = {}  # id -> the awaitable itself (kept alive: ids must not be reused within a run)
 _orig_with_abort_signal = IncrementalExecutor.__mro__[1].with_abort_signal
 
 
 def _recording_with_abort_signal(self, awaitable):
-    REACHED_AWAIT.add(id(awaitable))
-    return _orig_with_abort_signal(self, awaitable)
+    # with_abort_signal() is a coroutine function: calling it awaits nothing yet. The awaitable
+    # counts as reached only once that coroutine has really started (a coroutine handed to a
+    # task that is cancelled before its first step never runs).
+    coro = _orig_with_abort_signal(self, awaitable)
+
+    async def started():
+        REACHED_AWAIT[id(awaitable)] = awaitable
+        return await coro
+
+    return started()
 
 
 IncrementalExecutor.__mro__[1].with_abort_signal = _recording_with_abort_signal
